@@ -290,6 +290,14 @@ Fixpoint norm (sk : skeleton) (rs : list rop) (deferred : list op) : list op :=
 Definition prog_of (sk : skeleton) : prog :=
   map (fun e => (fst e, norm sk (map decode (snd e)) [])) (sk_funs sk).
 
+(* the skeleton without the listed raw ops (function, (op code, argument)): how a known finding is taken out *)
+Definition erase (sk : skeleton) (rm : list (N * (N * N))) : skeleton :=
+  mkSkeleton
+    (map (fun e => (fst e, filter (fun ca => negb (existsb (fun r =>
+                      N.eqb (fst r) (fst e) && N.eqb (fst (snd r)) (fst ca) && N.eqb (snd (snd r)) (snd ca)) rm)) (snd e)))
+         (sk_funs sk))
+    (sk_ifaces sk) (sk_slots sk) (sk_roots sk).
+
 Definition well_formed (sk : skeleton) : bool :=
   forallb (fun e => forallb (fun ca => match decode ca with RBad => false | _ => true end) (snd e)) (sk_funs sk).
 
@@ -421,3 +429,13 @@ Fixpoint index_of (s : string) (names : list string) (i : N) : option N :=
   | x :: r => if String.eqb s x then Some i else index_of s r (i + 1)
   end.
 Definition name_of (names : list string) (i : N) : string := nth (N.to_nat i) names "?"%string.
+
+(* raw ops given by name: (function, (op code, argument name)); the name table depends on the op code *)
+Definition resolve_ops (fns locks fields ifaces slots : list string) (xs : list (string * (N * string))) : list (N * (N * N)) :=
+  flat_map (fun x =>
+    let c := fst (snd x) in
+    let tbl := if N.leb c 2 then locks else if N.leb c 4 then fields else if N.leb c 7 then fns else if N.leb c 9 then ifaces else slots in
+    match index_of (fst x) fns 0, index_of (snd (snd x)) tbl 0 with
+    | Some g, Some a => [(g, (c, a))]
+    | _, _ => []
+    end) xs.
